@@ -120,4 +120,10 @@ mod proofs {
   fn c20_metavar_spelling_n7() {
     check::<7>();
   }
+
+  #[kani::proof]
+  #[kani::unwind(11)]
+  fn c20_metavar_spelling_n9() {
+    check::<9>();
+  }
 }
